@@ -18,6 +18,13 @@ NORMALISATIONS applied before any shape is matched (translator/c14_norm.py; gene
     `dict(zip(KEYS, VALUES[, strict=..]))` with tuple / list displays of equal length; names in it are resolved through
     single-assignment locals and module-level literal constants (the key tuple may live at module level); names bound
     by a match capture, walrus, loop, `with`, `except`, import, nested def are opaque
+  * records (round 2d): a module-level `class R(NamedTuple)` with only annotated fields: `R(a, b).first`, `R(a, b)[0]`,
+    `x, y = R(a, b)` stand for the constructor's arguments (positional / keyword / literal defaults)
+  * helpers in ANOTHER module of the package (round 2d): a call of a plain straight-line function imported (absolute,
+    relative, late import, re-exported by a package `__init__`) from a module of the same top-level package is
+    followed like a same-module helper, read in its own module (its constants, its helpers)
+  * object identity (round 2d): `self._array = A if c else B` is one binding per branch; `a or b` / `a and b` IS one of
+    its operands (no longer classified as a new object)
   * the mask recognises "the first / second index array" by what it COMPUTES (it translates to the same integral
     Gallina expression), not by its name, so it may be built before the `.astype(int)`, in named pieces, by a helper
   * the kernel: `enumerate`, `range(len(V))`, `range(0, len(V), 1)`, `range(V.size)`, `range(V.shape[0])`, manual
@@ -79,6 +86,22 @@ from .common import HEADER, body_no_doc, fail, find_func, parse
 
 CHARGE = "pyxel/data_structure/charge.py"
 GEOM = "pyxel/detectors/geometry.py"
+_REPO: list = [None]                      # set by translate(): where modules of the package are read from
+
+
+def _modname(rel: str) -> str:
+    return rel[:-3].replace("/", ".")
+
+
+def _loader(mod: str):
+    """`pkg.mod` -> (tree, is_package) read from the repository being translated, or None"""
+    rel = mod.replace(".", "/")
+    for cand, pkg in ((rel + ".py", False), (rel + "/__init__.py", True)):
+        try:
+            return parse(_REPO[0], cand), pkg
+        except Exception:
+            continue
+    return None
 
 PRELUDE = (HEADER +
            "From Coq Require Import ZArith QArith Qround List Bool.\n"
@@ -429,7 +452,7 @@ def _charge_sym(tree) -> Sym:
     cands = [n for n in ast.walk(tree) if isinstance(n, ast.ClassDef) and n.name == "Charge"]
     if len(cands) != 1:
         fail(None, "class Charge not found exactly once")
-    return Sym(tree, cands[0], keep=KEEP_CALLS)
+    return Sym(tree, cands[0], keep=KEEP_CALLS, modname=_modname(CHARGE), loader=_loader)
 
 
 ADD_AT = "__c14_add_at__"
@@ -546,7 +569,7 @@ def _centre_fn(tree, name: str, count_param: str, other_param: str, size_param: 
     params = [a.arg for a in fn.args.args + fn.args.kwonlyargs]
     if sorted(params) != sorted([count_param, other_param, size_param]):
         fail(fn, f"{name} parameters")
-    sym = Sym(tree)
+    sym = Sym(tree, modname=_modname(GEOM), loader=_loader)
 
     def poly(n):
         if isinstance(n, ast.Name):
@@ -949,7 +972,9 @@ class _Alias:
             return self.cls(n.value, d)
         if isinstance(n, ast.Starred):
             return self.cls(n.value, d)
-        if isinstance(n, (ast.BinOp, ast.UnaryOp, ast.Compare, ast.BoolOp, ast.Constant, ast.JoinedStr, ast.ListComp,
+        if isinstance(n, ast.BoolOp):              # `a or b` IS one of its operands
+            return _join([self.cls(v, d) for v in n.values])
+        if isinstance(n, (ast.BinOp, ast.UnaryOp, ast.Compare, ast.Constant, ast.JoinedStr, ast.ListComp,
                           ast.List, ast.Tuple, ast.Dict, ast.Set, ast.DictComp, ast.GeneratorExp)):
             return FRESH
         if isinstance(n, ast.IfExp):
@@ -1126,7 +1151,19 @@ def _bindings(fn: ast.FunctionDef, al: _Alias):
                 continue
             a = _self_attr(t, ("_array", "_frame"))
             if a is not None:
-                out.append((a, al.cls(val), n))
+                # `self.x = A if c else B`  ==  `if c: self.x = A` / `else: self.x = B`: one binding per branch
+                leaves, todo = [], [val]
+                while todo:
+                    v = todo.pop()
+                    if isinstance(v, ast.IfExp):
+                        todo += [v.orelse, v.body]
+                    else:
+                        leaves.append(v)
+                if len(leaves) == 1:
+                    out.append((a, al.cls(val), n))
+                else:
+                    for v in leaves:
+                        out.append((a, al.cls(v), ast.copy_location(ast.Assign(targets=[t], value=v), n)))
         if isinstance(n, ast.Call) and ast.unparse(n.func) == "setattr":
             fail(n, "setattr in class Charge")
     return out
@@ -1355,6 +1392,7 @@ def render(d: dict) -> str:
 
 
 def translate(repo: Path) -> str:
+    _REPO[0] = repo
     tree = parse(repo, CHARGE)
     gtree = parse(repo, GEOM)
     d = _df_to_array(tree)
